@@ -1,3 +1,5 @@
 -- All executable models and the driver-side glue.
 import Stingray.Model.Recfm
 import Stingray.Driver.C05
+import Stingray.Model.Clean
+import Stingray.Driver.C17
